@@ -168,12 +168,83 @@ func load(repo, overlayFile string, extraEnv []string) (*Ctx, error) {
 	if len(c.Funcs) < 300 {
 		return nil, fmt.Errorf("only %d functions found in the repository packages", len(c.Funcs))
 	}
+	c.resolveRoles()
 	return c, nil
+}
+
+// funcAlias maps a function that was found by its role to the name the rules know it under, so
+// that renaming an internal helper does not make the rules lose their subject.
+var funcAlias = map[*ssa.Function]string{}
+
+// resolveRoles finds internal free functions by what they do when their usual name is absent.
+func (c *Ctx) resolveRoles() {
+	hasParam := func(f *ssa.Function, typ string) bool {
+		for _, p := range f.Params {
+			if typeName(p.Type()) == typ {
+				return true
+			}
+		}
+		return false
+	}
+	callsAll := func(f *ssa.Function, names ...string) bool {
+		for _, n := range names {
+			if len(calls(f, suffixed(n))) == 0 {
+				return false
+			}
+		}
+		return true
+	}
+	roles := map[string]func(f *ssa.Function) bool{
+		"writeChunk": func(f *ssa.Function) bool {
+			return hasParam(f, "desync.IndexChunk") && hasParam(f, "desync.Store") && callsAll(f, "Store).GetChunk", "os.File).WriteAt")
+		},
+		"readChunkFromFile": func(f *ssa.Function) bool {
+			return hasParam(f, "desync.IndexChunk") && hasParam(f, "os.File") && callsAll(f, "desync.NewChunkWithID")
+		},
+		"tar": func(f *ssa.Function) bool {
+			if !hasParam(f, "desync.FormatEncoder") || !hasParam(f, "desync.File") {
+				return false
+			}
+			for _, call := range calls(f, func(string) bool { return true }) {
+				if call.Common().StaticCallee() == f {
+					return true
+				}
+			}
+			return false
+		},
+		"makeGoodbyeBST": func(f *ssa.Function) bool {
+			return len(f.Params) == 1 && strings.Contains(f.Params[0].Type().String(), "FormatGoodbyeItem") && callsAll(f, "sort.Slice")
+		},
+		"newFileSeedSegment": func(f *ssa.Function) bool {
+			return f.Signature.Results().Len() == 1 && typeName(f.Signature.Results().At(0).Type()) == "desync.fileSeedSegment" && f.Signature.Recv() == nil
+		},
+		"isDevice": func(f *ssa.Function) bool {
+			return len(f.Params) == 1 && typeName(f.Params[0].Type()) == "fs.FileMode" && f.Signature.Results().Len() == 1 && isBool(f.Signature.Results().At(0).Type())
+		},
+	}
+	for name, pred := range roles {
+		if c.byKey[name] != nil {
+			continue
+		}
+		var cands []*ssa.Function
+		for _, f := range c.Funcs {
+			if f.Pkg == c.LibSSA && f.Parent() == nil && f.Signature.Recv() == nil && pred(f) {
+				cands = append(cands, f)
+			}
+		}
+		if len(cands) == 1 {
+			funcAlias[cands[0]] = name
+			c.byKey[name] = cands[0]
+		}
+	}
 }
 
 // fnKey is the stable name of a function: "AssembleFile", "LocalStore.StoreChunk",
 // "cmd.runList", closures "UnTarIndex$1".
 func fnKey(f *ssa.Function) string {
+	if a, ok := funcAlias[f]; ok {
+		return a
+	}
 	if f.Parent() != nil {
 		return fnKey(f.Parent()) + strings.TrimPrefix(f.Name(), f.Parent().Name())
 	}
@@ -201,7 +272,8 @@ func (c *Ctx) fn(key string) *ssa.Function { return c.byKey[key] }
 func (c *Ctx) mustFn(key string) *ssa.Function {
 	f := c.byKey[key]
 	if f == nil {
-		c.bad(key, token.NoPos, "anchored function %s not found in the analysed program", key)
+		// the anchor of the rule is gone (renamed, moved, removed): the rule cannot decide
+		c.obs = append(c.obs, Obligation{c.curRule, key, "-", "undecided", "anchored function " + key + " not found in the analysed program: the rule lost its subject and cannot decide"})
 	}
 	return f
 }
@@ -237,6 +309,9 @@ func callee(call ssa.CallInstruction) string {
 		return short(cc.Method.FullName())
 	}
 	if f := cc.StaticCallee(); f != nil {
+		if a, ok := funcAlias[f]; ok {
+			return "desync." + a
+		}
 		if f.Parent() != nil {
 			return "closure:" + fnKey(f)
 		}
